@@ -553,7 +553,6 @@ func (w *World) revertsExactlyIn(ra *ssa.Function, target ssa.Value) (bool, stri
 	return false, "no deletion of the range key (directly or via a collected slice) on the edge where target < mark holds"
 }
 
-
 // finishWriteBack evaluates StateDBWrapper.Finish on its paths (helpers
 // expanded): in every iteration over the recorded addresses the account obtained
 // with FindOrNewAccount(addr, exec) receives the EVM's balance and nonce for that
